@@ -122,3 +122,8 @@ CHECKS.update({
     "C32": ("6/C32", "Every display name of length <=3 (quick; plus length 4 over 5 classes) / <=4 (thorough) over 10 character classes (lower, upper, digit, '-', '_', space, e-acute, dotted capital I, sharp s, CJK) plus 112 length-edge names (54..69 chars with hyphens / non-alphanumerics at the cut) and 20 hand-picked Unicode names x 4 scripted suffix draws x 3 availability answer sequences x force_suffix on/off, executed on an AST slice of the current k8s_client.py; DNS-1035 validity, derivation from the name's lowercase ASCII alphanumerics, and presence of the drawn suffix are checked on every call.",
             "The module imports kubernetes (absent): the two functions are compiled from the current source file and run with scripted random / validate_deployment_id answers. Fix recorded for the short-name suffix defect this check found.", ENUM_TECH),
 })
+
+CHECKS.update({
+    "C23": ("6/C23", "All pairs of step configs (1-2 accepted x 0-2 returned types) over an 8-class (quick) / 10-class (thorough) event alphabet; every pair with sound connectivity re-validated under all 8 workflow-level skip sets x 4x4 step-level skip lists; all triples over a 5-class alphabet (thorough); 1-2 @catch_error handlers over 10 for_steps layouts x 8 budgets x both discovery orders and positions; all pairs over the 5-class alphabet also through generated Workflow classes and the public Workflow.validate(); accept/reject and the HITL flag compared with an independent restatement of the stated rules (2.8M graphs quick).",
+            "Step configs are built as StepConfig objects and fed to _validate_workflow (the function Workflow.validate calls); the 5-class subset binds that to the public API. Fix recorded for the exact-class HITL flag this check found.", ENUM_TECH),
+})
